@@ -12,8 +12,10 @@ import (
 	"reflect"
 	"strconv"
 
+	"google.golang.org/protobuf/encoding/protowire"
 	"google.golang.org/protobuf/proto"
 	"google.golang.org/protobuf/reflect/protoreflect"
+	"google.golang.org/protobuf/types/dynamicpb"
 )
 
 // sigNegZeroDefault: float/double field whose declared default is -0, field unset, generated getter returns +0.
@@ -264,5 +266,76 @@ func normKey(k reflect.Value) any {
 		return k.Uint()
 	default:
 		return k.String()
+	}
+}
+
+// emptyAccessors calls every generated getter (and Has method) on a NEW message and on a message unmarshalled from
+// an encoding that carries none of its fields, and compares with dynamicpb's Get/Has of a new message — the
+// defaults of the schema, e.g. the first value of a closed enum whose first value is not zero.
+func emptyAccessors(lv *levelCtx, md protoreflect.MessageDescriptor) {
+	names, ok := lv.Level.Names[string(md.FullName())]
+	gt := lv.genType(md)
+	if !ok || gt == nil {
+		return
+	}
+	curStream = "empty-accessors"
+	defer func() {
+		curStream = "-"
+		if e := recover(); e != nil {
+			fail(lv, "panic while calling generated accessors on an empty message", "", md, nil, fmt.Sprint(e))
+		}
+	}()
+	dm := dynamicpb.NewMessageType(md).New()
+	// an encoding without any declared field: one unknown varint field
+	unk := protowire.AppendVarint(protowire.AppendTag(nil, 536870000, protowire.VarintType), 1)
+	fresh := gt.New()
+	decoded := gt.New()
+	if err := (proto.UnmarshalOptions{AllowPartial: true}).Unmarshal(unk, decoded.Interface()); err != nil {
+		fail(lv, "generated type rejects an encoding that carries only an unknown field", "", md, unk, err.Error())
+		return
+	}
+	for which, gm := range map[string]protoreflect.Message{"new message": fresh, "message unmarshalled without the field": decoded} {
+		rv := reflect.ValueOf(gm.Interface())
+		fs := md.Fields()
+		for i := 0; i < fs.Len(); i++ {
+			fd := fs.Get(i)
+			fn, ok := names.Fields[strconv.Itoa(int(fd.Number()))]
+			if !ok {
+				continue
+			}
+			out.Evals++
+			if fn.Get != "" {
+				if get := rv.MethodByName(fn.Get); get.IsValid() && get.Type().NumIn() == 0 && get.Type().NumOut() == 1 {
+					res := get.Call(nil)[0]
+					switch {
+					case fd.IsMap(), fd.IsList():
+						if res.Len() != 0 {
+							fail(lv, "generated getter of an unset repeated/map field is not empty ("+which+")", "", md, nil, string(fd.Name()))
+						}
+					case fd.Message() != nil:
+						if !(res.Kind() == reflect.Pointer && res.IsNil()) {
+							fail(lv, "generated getter of an unset message field is not nil ("+which+")", "", md, nil, string(fd.Name()))
+						}
+					default:
+						a, b := canonGo(fd, res), canonPR(fd, dm.Get(fd))
+						if a != b {
+							sig := ""
+							if k := fd.Kind(); (k == protoreflect.FloatKind || k == protoreflect.DoubleKind) && fd.HasDefault() &&
+								fd.Default().Float() == 0 && math.Signbit(fd.Default().Float()) && a == "n0" {
+								sig = sigNegZeroDefault
+							}
+							fail(lv, "generated getter of an unset field differs from the schema default as dynamicpb reports it ("+which+")", sig, md, nil,
+								fmt.Sprintf("field %s (%d) level %s: getter %s, dynamicpb default %s", fd.Name(), fd.Number(), names.API, a, b))
+						}
+					}
+					hist("accessor:get-on-empty")
+				}
+			}
+			if fn.Has != "" {
+				if has := rv.MethodByName(fn.Has); has.IsValid() && has.Type().NumIn() == 0 && has.Call(nil)[0].Bool() {
+					fail(lv, "generated Has method reports an unset field as present ("+which+")", "", md, nil, string(fd.Name()))
+				}
+			}
+		}
 	}
 }
